@@ -8,7 +8,7 @@ members; every member of a reported group gets one violation at its own start li
 line_count = end - start + 1, occurrences = len(group) and "Also found in" = the group minus the member itself
 (mutual references); the ignore filters only remove violations. SQLite storage is an ASSUMED contract whose SQL text is
 fingerprinted (a changed query string => undecided)."""
-from pyvc.api import (contract, lemma, custom, Int, Bool, Str, SeqOf, TupleOf, Opt, Rec, Opaque, Dict, implies, call, ih,
+from pyvc.api import (contract, lemma, custom, Int, Bool, Str, SeqOf, TupleOf, Opt, Rec, Opaque, Dict, EnumOf, implies, call, ih,
                       opaque, reveal, use, mk, uf)
 from contracts._common import ViolationT, PathT, path_str
 from contracts.c03_dedup import CodeBlockT, Blocks, Violations, line_count_of, overlap
@@ -16,6 +16,8 @@ from contracts.c03_dedup import CodeBlockT, Blocks, Violations, line_count_of, o
 VB = "src/linters/dry/violation_builder.py::DRYViolationBuilder."
 VG = "src/linters/dry/violation_generator.py::ViolationGenerator."
 
+# same SMT sort as ViolationT (an EnumOf field is a string); natively the severity is the real Severity member
+DryViolationT = ViolationT.extend(severity=EnumOf("src/core/types.py::Severity", pycls="src.core.types:Severity"))
 BuilderT = Rec("DRYViolationBuilder", cls="src/linters/dry/violation_builder.py::DRYViolationBuilder",
                pycls="src.linters.dry.violation_builder:DRYViolationBuilder")
 
@@ -84,7 +86,7 @@ class BuildMessage:
 @opaque
 def violation_for(block: CodeBlockT, group: Blocks, rule_id: Str) -> ViolationT:
     """The violation reported for `block` as a member of the de-duplicated `group` (definition revealed where needed)."""
-    return mk(ViolationT, rule_id=rule_id, file_path=path_str(block.file_path), line=block.start_line, column=1,
+    return mk(DryViolationT, rule_id=rule_id, file_path=path_str(block.file_path), line=block.start_line, column=1,
               message=message_of(block.end_line - block.start_line + 1, len(group), refs(block, group)),
               severity="error", suggestion=None)
 
@@ -129,8 +131,47 @@ QueryServiceT = Rec("CacheQueryService", cls="src/linters/dry/cache_query.py::Ca
 CacheT = Rec("DRYCache", cls="src/linters/dry/cache.py::DRYCache", db=ConnT, _query_service=QueryServiceT)
 StorageT = Rec("DuplicateStorage", cls="src/linters/dry/duplicate_storage.py::DuplicateStorage", _cache=CacheT)
 
-db_dup_hashes = uf("dry_db_duplicate_hashes", [ConnT], SeqOf(Int))
-db_rows = uf("dry_db_rows_by_hash", [ConnT, Int], SeqOf(RowT))
+
+
+def _native_query_service():
+    from pyvc import native as _native
+    _native._ensure_repo_on_path()
+    from src.linters.dry.cache_query import CacheQueryService
+    return CacheQueryService()
+
+
+# natively the two uninterpreted functions ARE the two SQL queries (run on the generated connection)
+db_dup_hashes = uf("dry_db_duplicate_hashes", [ConnT], SeqOf(Int),
+                   concrete=lambda db: list(_native_query_service().get_duplicate_hashes(db)))
+db_rows = uf("dry_db_rows_by_hash", [ConnT, Int], SeqOf(RowT),
+             concrete=lambda db, h: [tuple(r) for r in _native_query_service().find_blocks_by_hash(db, h)])
+
+
+def _gen_connection(g):
+    """CPython cross-check: an in-memory DRY database filled through the real DRYCache.add_blocks with a few blocks
+    whose hash values collide often (so that duplicate groups, overlaps and several files occur)."""
+    from pathlib import Path as _Path
+    from pyvc import native as _native
+    _native._ensure_repo_on_path()
+    from src.linters.dry.cache import CodeBlock, DRYCache
+    cache = DRYCache("memory")
+    for f in range(g.rng.randrange(0, 4)):
+        path = _Path(g.rng.choice(["a.py", "pkg/b.py", "c.ts", "d.js", "e.py"]))
+        blocks = []
+        for _ in range(g.rng.randrange(0, 5)):
+            start = g.rng.randrange(1, 30)
+            blocks.append(CodeBlock(file_path=path, start_line=start, end_line=start + g.rng.randrange(0, 6),
+                                    snippet=g.rng.choice(["x = 1", "y = f(x)\nz = 2", "s"]), hash_value=g.rng.randrange(0, 3)))
+        cache.add_blocks(path, blocks)
+    return cache.db
+
+
+def _register_generators():
+    from pyvc import selftest
+    selftest.OPAQUE_GENERATORS["SqliteConnection"] = _gen_connection
+
+
+_register_generators()
 
 
 @contract(QS + "get_duplicate_hashes", props=["C03"], types=dict(self=QueryServiceT, db=ConnT), returns=SeqOf(Int),
@@ -415,7 +456,28 @@ class GeneratorExtractLineCount:
         return line_count_of(message, 1)
 
 
-inline_ignored = uf("dry_inline_ignored", [Dict, Str, Int, Int], Bool)
+
+
+def _inline_ignored_native(ranges, file_path, line, end_line):
+    from pyvc import native as _native
+    _native._ensure_repo_on_path()
+    from src.linters.dry.inline_ignore import InlineIgnoreParser
+    parser = InlineIgnoreParser()
+    parser._ignore_ranges = ranges
+    return parser.should_ignore(file_path, line, end_line)
+
+
+def _gen_ignore_ranges(g):
+    """Type invariant of InlineIgnoreParser._ignore_ranges: str(Path) -> list of (start, end) int pairs."""
+    from pathlib import Path as _Path
+    return {str(_Path(g.s() or "x")): [(a, a + g.rng.randrange(0, 11)) for a in [g.rng.choice(g.ints) for _ in range(g.rng.randrange(1, 3))]]
+            for _ in range(g.rng.randrange(0, 4))}
+
+
+inline_ignored = uf("dry_inline_ignored", [Dict, Str, Int, Int], Bool, concrete=_inline_ignored_native)
+# same record as contracts.c04_checkers.InlineParserT; the field additionally carries its native type invariant
+InlineParserGenT = Rec("InlineIgnoreParser", cls="src/linters/dry/inline_ignore.py::InlineIgnoreParser",
+                       _ignore_ranges=Dict.with_gen(_gen_ignore_ranges))
 
 
 @contract(II + "should_ignore", props=["C03", "C04"],
@@ -435,7 +497,7 @@ def inline_dropped(ranges, v):
 
 
 @contract(VG + "_filter_inline_ignored", props=["C03", "C04"],
-          types=dict(self=GeneratorT, violations=Violations, inline_ignore=InlineParserT, filtered=Violations, violation=ViolationT,
+          types=dict(self=GeneratorT, violations=Violations, inline_ignore=InlineParserGenT, filtered=Violations, violation=ViolationT,
                      start_line=Int, line_count=Int, end_line=Int),
           returns=Violations)
 class FilterInlineIgnored:
@@ -455,8 +517,9 @@ def subseq(a: Violations, b: Violations) -> Bool:
 
 
 @contract(VG + "_filter_shared_ignored", props=["C03", "C04"],
-          types=dict(self=GeneratorT, violations=Violations, ignore_parser=SharedParserT, file_contents=Dict, filtered=Violations,
-                     violation=ViolationT),
+          types=dict(self=GeneratorT, violations=Violations, ignore_parser=SharedParserT,
+                     file_contents=Dict.with_gen(lambda g: {g.s(): g.s() for _ in range(g.rng.randrange(0, 4))}),  # dict[str, str]
+                     filtered=Violations, violation=ViolationT),
           returns=Violations, modifies=["ignore_parser._ignore_cache"])
 class FilterSharedIgnored:
     """The shared directive parser is stateful (memo of repository-pattern verdicts, C04): stated here is only that the
@@ -472,7 +535,8 @@ class FilterSharedIgnored:
 
 
 IgnoreCtxT = Rec("IgnoreContext", cls="src/linters/dry/violation_generator.py::IgnoreContext",
-                 inline_ignore=InlineParserT, shared_parser=Opt(SharedParserT), file_contents=Opt(Dict))
+                 inline_ignore=InlineParserGenT, shared_parser=Opt(SharedParserT),
+                 file_contents=Opt(Dict.with_gen(lambda g: {g.s(): g.s() for _ in range(g.rng.randrange(0, 4))})))
 
 
 def vdedup_spec(violations):
@@ -608,17 +672,35 @@ HEURISTIC = ("statement-classification heuristic (what counts as an 'ordinary st
              "brought under contract; assumed to be a pure function of the file content and the line range")
 
 WinT = TupleOf(Int, Int, Int, Str)
-DetectorT = Rec("SingleStatementDetector", cls="src/linters/dry/single_statement_detector.py::SingleStatementDetector")
-RegistryT = Rec("BlockFilterRegistry", cls="src/linters/dry/block_filter.py::BlockFilterRegistry")
+
+
+def _real(modname, name):
+    from pyvc import native as _native
+    import importlib as _importlib
+    _native._ensure_repo_on_path()
+    return getattr(_importlib.import_module(modname), name)
+
+
+# natively: a detector without cached AST (its verdict is then a function of the content alone) and the default registry
+DetectorT = Rec("SingleStatementDetector", cls="src/linters/dry/single_statement_detector.py::SingleStatementDetector") \
+    .with_gen(lambda g: _real("src.linters.dry.single_statement_detector", "SingleStatementDetector")())
+RegistryT = Rec("BlockFilterRegistry", cls="src/linters/dry/block_filter.py::BlockFilterRegistry") \
+    .with_gen(lambda g: _real("src.linters.dry.block_filter", "create_default_registry")())
 PyAnalyzerT = Rec("PythonDuplicateAnalyzer", cls="src/linters/dry/python_analyzer.py::PythonDuplicateAnalyzer",
                   _filter_registry=RegistryT, _statement_detector=Opt(DetectorT))
 TsAnalyzerT = Rec("TypeScriptDuplicateAnalyzer", cls="src/linters/dry/typescript_analyzer.py::TypeScriptDuplicateAnalyzer",
                   _filter_registry=RegistryT)
 
-py_single_statement = uf("dry_py_single_statement", [Str, Int, Int], Bool)
-ts_single_statement = uf("dry_ts_single_statement", [Str, Int, Int], Bool)
-ts_include_block = uf("dry_ts_include_block", [Str, Int, Int], Bool)
-block_filtered = uf("dry_block_filtered", [CodeBlockT, Str], Bool)
+py_single_statement = uf("dry_py_single_statement", [Str, Int, Int], Bool,
+                         concrete=lambda c, s, e: _real("src.linters.dry.single_statement_detector", "SingleStatementDetector")()
+                         .is_single_statement(c, s, e))
+ts_single_statement = uf("dry_ts_single_statement", [Str, Int, Int], Bool,
+                         concrete=lambda c, s, e: _real("src.linters.dry.typescript_statement_detector", "is_single_statement")(c, s, e))
+ts_include_block = uf("dry_ts_include_block", [Str, Int, Int], Bool,
+                      concrete=lambda c, s, e: _real("src.linters.dry.typescript_statement_detector", "should_include_block")(c, s, e))
+# verdict of the DEFAULT filter registry (the only one the analyzers are built with when none is injected)
+block_filtered = uf("dry_block_filtered", [CodeBlockT, Str], Bool,
+                    concrete=lambda b, c: _real("src.linters.dry.block_filter", "create_default_registry")().should_filter_block(b, c))
 
 
 @contract(SSD + "is_single_statement", props=["C03"], types=dict(self=DetectorT, content=Str, start_line=Int, end_line=Int),
@@ -667,8 +749,9 @@ class PyCreateBlockIfValid:
             if py_keeps(self._statement_detector is not None, file_path, content, (hash_val, start_line, end_line, snippet)) else None
 
     def ensures_block_copies_the_window(self, file_path, content, hash_val, start_line, end_line, snippet, result):
-        return implies(result is not None, result.file_path == file_path and result.start_line == start_line
-                       and result.end_line == end_line and result.snippet == snippet and result.hash_value == hash_val)
+        # (`or`, not implies(): natively both arguments of implies() are evaluated, and None has no fields)
+        return result is None or (result.file_path == file_path and result.start_line == start_line
+                                  and result.end_line == end_line and result.snippet == snippet and result.hash_value == hash_val)
 
 
 @contract(TAN + "_build_blocks", props=["C03"],
